@@ -265,11 +265,13 @@ fn step(w: &mut World, op: &Value) -> Value {
             json!({"e": "dropt", "t": tid, "nt": nt})
         }
         "write" | "read" | "close" => {
-            if w.dials.is_empty() {
+            let side = if op["side"].as_str() == Some("l") { "l" } else { "d" };
+            // "d" counts among the connections whose `side` end exists
+            let have: Vec<usize> = (0..w.dials.len()).filter(|i| if side == "l" { w.dials[*i].lend.is_some() } else { w.dials[*i].dend.is_some() }).collect();
+            if have.is_empty() {
                 return json!({"e": "skip"});
             }
-            let i = op["d"].as_u64().unwrap_or(0) as usize % w.dials.len();
-            let side = if op["side"].as_str() == Some("l") { "l" } else { "d" };
+            let i = have[op["d"].as_u64().unwrap_or(0) as usize % have.len()];
             let n = (op["n"].as_u64().unwrap_or(1) as usize).clamp(1, 6);
             let end = if side == "l" { &mut w.dials[i].lend } else { &mut w.dials[i].dend };
             let Some(ch) = end.as_mut() else { return json!({"e": "skip"}) };
@@ -320,6 +322,82 @@ fn run(runno: u64, sched: &Value) -> Vec<Value> {
         evs.push(json!({"e": "panic", "msg": msg}));
     }
     evs
+}
+
+/// Seeded random run generated ONLINE: steps are chosen among those that make sense in the current state and executed
+/// at once; the concrete ops are the recorded schedule (the transport is deterministic, so it replays identically).
+fn run_online(runno: u64, rng: &mut impl Rng, len: usize) -> (Value, Vec<Value>) {
+    let mut w = World::new(runno);
+    let mut evs = vec![];
+    let mut ops: Vec<Value> = vec![];
+    let mut tail: Vec<Value> = vec![];
+    for _ in 0..4 {
+        for t in 0..3 {
+            tail.push(json!({"a": "poll", "t": t}));
+        }
+    }
+    for p in 1..4 {
+        tail.push(json!({"a": "listen", "t": 2, "p": p}));
+    }
+    let total_len = len + tail.len();
+    for k in 0..total_len {
+        let chosen = if k >= len {
+            tail[k - len].clone()
+        } else {
+            let t = rng.gen_range(0..3);
+            let mut cand: Vec<(u32, Value)> = vec![
+                (9, json!({"a": "listen", "t": t, "p": rng.gen_range(0..4)})),
+                (7, json!({"a": "dial", "t": t, "p": rng.gen_range(0..4)})),
+                (16, json!({"a": "poll", "t": t})),
+                (2, json!({"a": "dropt", "t": t})),
+            ];
+            if !w.lids.is_empty() {
+                let l = rng.gen_range(0..w.lids.len());
+                cand.push((7, json!({"a": "remove", "t": t, "l": l})));
+                cand.push((6, json!({"a": "diall", "t": t, "l": l})));
+                cand.push((2, json!({"a": "listenl", "t": t, "l": l})));
+            }
+            if w.dials.iter().any(|d| d.dport.is_some()) {
+                cand.push((2, json!({"a": "listend", "t": t, "d": rng.gen_range(0..4)})));
+                cand.push((1, json!({"a": "diald", "t": t, "d": rng.gen_range(0..4)})));
+            }
+            if w.dials.iter().any(|d| d.fut.is_some()) {
+                cand.push((10, json!({"a": "dialpoll", "d": rng.gen_range(0..4)})));
+                cand.push((1, json!({"a": "dropd", "d": rng.gen_range(0..4)})));
+            }
+            for side in ["d", "l"] {
+                let have = w.dials.iter().any(|d| if side == "l" { d.lend.is_some() } else { d.dend.is_some() });
+                if have {
+                    cand.push((5, json!({"a": "write", "d": rng.gen_range(0..4), "side": side, "n": rng.gen_range(1..5)})));
+                    cand.push((7, json!({"a": "read", "d": rng.gen_range(0..4), "side": side, "n": rng.gen_range(1..6)})));
+                    cand.push((1, json!({"a": "close", "d": rng.gen_range(0..4), "side": side})));
+                }
+            }
+            let total: u32 = cand.iter().map(|c| c.0).sum();
+            let mut x = rng.gen_range(0..total);
+            let mut chosen = cand[0].1.clone();
+            for (wgt, op) in cand {
+                if x < wgt {
+                    chosen = op;
+                    break;
+                }
+                x -= wgt;
+            }
+            chosen
+        };
+        ops.push(chosen.clone());
+        match guard(|| step(&mut w, &chosen)) {
+            Ok(v) => evs.push(v),
+            Err(msg) => {
+                evs.push(json!({"e": "panic", "msg": msg}));
+                break;
+            }
+        }
+    }
+    if let Err(msg) = guard(move || drop(w)) {
+        evs.push(json!({"e": "panic", "msg": msg}));
+    }
+    (json!({"ops": ops}), evs)
 }
 
 fn emit(out: &mut Out, sched: &Value, evs: Vec<Value>) {
@@ -424,21 +502,27 @@ fn main() {
             let runs = a.num(1);
             let mut out = Out::create(a.get(2));
             let mut rng = vcommon::rng(seed ^ 0x3e3042);
-            for _ in 0..runs {
+            for k in 0..runs {
                 let len = rng.gen_range(6..50);
-                let mut ops: Vec<Value> = (0..len).map(|_| random_op(&mut rng)).collect();
-                for _ in 0..4 {
-                    for t in 0..3 {
-                        ops.push(json!({"a": "poll", "t": t}));
-                    }
-                }
-                for p in 1..4 {
-                    ops.push(json!({"a": "listen", "t": 2, "p": p}));
-                }
-                let sched = json!({"ops": ops});
                 runno += 1;
-                let evs = run(runno, &sched);
-                emit(&mut out, &sched, evs);
+                if k % 4 == 3 {
+                    // blind schedules too (impossible steps are skipped)
+                    let mut ops: Vec<Value> = (0..len).map(|_| random_op(&mut rng)).collect();
+                    for _ in 0..4 {
+                        for t in 0..3 {
+                            ops.push(json!({"a": "poll", "t": t}));
+                        }
+                    }
+                    for p in 1..4 {
+                        ops.push(json!({"a": "listen", "t": 2, "p": p}));
+                    }
+                    let sched = json!({"ops": ops});
+                    let evs = run(runno, &sched);
+                    emit(&mut out, &sched, evs);
+                } else {
+                    let (sched, evs) = run_online(runno, &mut rng, len);
+                    emit(&mut out, &sched, evs);
+                }
             }
             println!("runs={runs} events={}", out.events);
             out.finish();
